@@ -53,6 +53,8 @@ class Scope:
         if isinstance(t, TEnum):
             return ("$enum", t.nm, r.choice(t.members))
         if isinstance(t, TOpaque):
+            if f"opaque:{t.nm}" in SAMPLERS:
+                return ("$py", SAMPLERS[f"opaque:{t.nm}"](self))
             return ("$opaque", t.nm, r.choice(["o0", "o1"]))
         if isinstance(t, TOpt):
             return None if r.random() < 0.3 else self.sample(t.inner, depth, path)
